@@ -85,6 +85,8 @@ def run_kind(kind, outdir, inp):
         # a mutant of a shipped class diagram (deterministic in mut_seed), through the real umlgen.GenerateUML
         from . import umlsynth
         cd = umlsynth.load(inp["name"])
+        if inp.get("probe"):
+            umlsynth.apply_probe(cd, inp["probe"])
         umlsynth.mutate(_r.Random(inp["mut_seed"]), cd, inp["mut_n"])
         return umlsynth.generate(cd, outdir, "cpp" if kind == "uml_mut" else "csharp", bool(inp["ns"]))
     return generate(kind, outdir, name=inp["name"], ns=inp["ns"])
